@@ -786,7 +786,9 @@ pub fn partition_suites(thorough: bool) -> Vec<Suite> {
 /// Histories whose flushed images are decoded by the independent reader (C10).
 pub fn layout_tables(cfg: &Cfg) -> Tables {
     let mut t = std_tables();
-    t.keys = vec![b"a".to_vec(), vec![b'K'; 255], vec![b'L'; 256], vec![b'M'; cfg.max_key()], b"b\0".to_vec()];
+    // the last two are one byte and eight bytes longer than the longest key a record head
+    // of this format can hold: they must be refused, never written
+    t.keys = vec![b"a".to_vec(), vec![b'K'; 255], vec![b'L'; 256], vec![b'M'; cfg.max_key()], b"b\0".to_vec(), vec![b'N'; cfg.max_key() + 1], vec![b'O'; cfg.max_key() + 8]];
     t
 }
 
@@ -795,6 +797,8 @@ pub fn layout_ops(ttl: bool) -> Vec<Op> {
     for k in 0..5u8 {
         v.push(ins(k, V_X));
     }
+    v.push(ins(5, V_X));
+    v.push(ins(6, V_X));
     v.push(ins(0, V_BIG2));
     v.push(ins(3, V_BIG3));
     v.push(ins_ts(0, V_Y, 1));
